@@ -141,21 +141,20 @@ class Interp(ExprMixin, CallMixin):
             for key, vals in self._non_init_writes.items():
                 non_init[key].extend(vals)
             for (cq, f), vals in non_init.items():
-                for sub in self.prog.subclasses(cq):
-                    cur = table.get((sub, f))
-                    table[(sub, f)] = join(cur, _generalise(join_all(vals)))
+                # writers are analysed once per concrete receiver class: the write belongs to exactly that class
+                cur = table.get((cq, f))
+                table[(cq, f)] = join(cur, _generalise(join_all(vals)))
             for (cq, f), vals in self._elem_writes.items():
-                for sub in self.prog.subclasses(cq):
-                    cur = table.get((sub, f))
-                    if cur is None:
-                        continue
-                    el = cur.elem
-                    ky = cur.key
-                    for v, k in vals:
-                        el = join(el, _generalise(v))
-                        if k is not None:
-                            ky = join(ky, _generalise(k))
-                    table[(sub, f)] = replace(cur, elem=el, key=ky)
+                cur = table.get((cq, f))
+                if cur is None:
+                    continue
+                el = cur.elem
+                ky = cur.key
+                for v, k in vals:
+                    el = join(el, _generalise(v))
+                    if k is not None:
+                        ky = join(ky, _generalise(k))
+                table[(cq, f)] = replace(cur, elem=el, key=ky)
             self.field_table = table
             self._non_init_writes.clear()
             self._elem_writes.clear()
@@ -270,9 +269,8 @@ class Interp(ExprMixin, CallMixin):
             if k in ("list", "set"):
                 return AV(types=frozenset({k}), elem=self.annotation_av(fi, inner))
             if k == "dict":
-                if isinstance(inner, ast.Tuple) and len(inner.elts) == 2:
-                    return AV(types=frozenset({"dict"}), key=self.annotation_av(fi, inner.elts[0]),
-                              elem=self.annotation_av(fi, inner.elts[1]))
+                # value annotations of dictionaries are not trusted (RuleOrdering's `Dict[Any, ConsumptionRule]`
+                # really holds lists of rules)
                 return AV(types=frozenset({"dict"}))
             if k == "tuple":
                 return AV(types=frozenset({"tuple"}))
